@@ -781,7 +781,16 @@ pub async fn acquire_key(base_url: &Uri) -> Result<Key> {
             response.status(),
         )));
     }
-    hyper_client::read_response_body(response).await
+    // the response body carries the key value: a parse error must not echo it into
+    // status messages, logs or the provision query response
+    hyper_client::read_response_body(response)
+        .await
+        .map_err(|_| {
+            Error::Key(KeyErrorType::ParseKeyResponse(format!(
+                "{}",
+                KeyAction::Acquire
+            )))
+        })
 }
 
 pub async fn attest_key(base_url: &Uri, key: &Key) -> Result<()> {
